@@ -6,14 +6,14 @@ Local Open Scope N_scope.
 
 Fixpoint has_timeout (e : ctx_expr) : bool :=
   match e with
-  | CxBackground | CxGun => false
+  | CxBackground | CxGun | CxOther => false
   | CxWithTimeout _ => true
   | CxWithMD p => has_timeout p
   end.
 
 Lemma ctx_deadline_le : forall tmo e d, ctx_deadline tmo e = Some d -> d <= tmo.
 Proof.
-  intros tmo e. induction e as [| | p IH | p IH]; intros d H; cbn [ctx_deadline] in H; try discriminate.
+  intros tmo e. induction e as [| | p IH | p IH |]; intros d H; cbn [ctx_deadline] in H; try discriminate.
   - destruct (ctx_deadline tmo p) as [d0|]; inversion H; subst; lia.
   - auto.
 Qed.
@@ -22,7 +22,7 @@ Lemma ctx_deadline_iff_timeout : forall tmo e,
   (has_timeout e = true -> exists d, ctx_deadline tmo e = Some d) /\
   (has_timeout e = false -> ctx_deadline tmo e = None).
 Proof.
-  intros tmo e. induction e as [| | p IH | p IH]; cbn [has_timeout ctx_deadline]; split; intros H; try discriminate; auto.
+  intros tmo e. induction e as [| | p IH | p IH |]; cbn [has_timeout ctx_deadline]; split; intros H; try discriminate; auto.
   - destruct (ctx_deadline tmo p); eauto.
   - apply IH; exact H.
   - apply IH; exact H.
